@@ -163,6 +163,50 @@ def run_const_units(res, mod, idx, tier):
     res.flags['const_unit_specs'] += 1
 
 
+# --- declared constants as VALUES with many significant digits / large magnitude / exponents: constant form against the written-out text
+VALUE_CONSTS = (('1000001', 'int'), ('16777217', 'int'), ('-1000001', 'int'), ('123456.5', 'float'), ('0.1234567', 'float'), ('3.141593', 'float'),
+                ('0.1', 'float'), ('1e-7', 'float'), ('12345678.25', 'float'), ('9007199254740993', 'int'), ('2.5', 'float'), ('100000000', 'int'))
+VALUE_TEMPLATES = ('out = (x >= {k})', 'out = once[0,1] ((x - {k}) >= 0)', 'out = (abs(x - {k}) <= 0.5) and (y <= {k})', 'out = (x == {k})')
+
+
+def value_const_cases():
+    return [(ci, ti) for ci in range(len(VALUE_CONSTS)) for ti in range(len(VALUE_TEMPLATES))]
+
+
+def vc_check(case):
+    lit, typ = VALUE_CONSTS[case['const']]
+    tpl = VALUE_TEMPLATES[case['template']]
+    ctext, ltext = tpl.format(k='kv'), tpl.format(k=lit if not lit.startswith('-') else '(%s)' % lit)
+    a = cu_run(case['kind'], ctext, [('kv', typ, lit)], 3, case['trace'])
+    b = cu_run(case['kind'], ltext, (), 3, case['trace'])
+    if a[0] != b[0]:
+        return 'with the constant kv = %s: %s %s; with the value written out %r: %s %s' % (lit, a[0], str(a[1])[:160], ltext, b[0], str(b[1])[:160])
+    if a[0] == 'ok' and explore.snapshot(a[1]) != explore.snapshot(b[1]):
+        return 'with the declared constant kv = %s the result of %r is %s, with the value written out it is %s' % (lit, ctext, str(a[1])[:200], str(b[1])[:200])
+    return None
+
+
+def run_value_consts(res, mod, idx):
+    ci, ti = value_const_cases()[idx]
+    v = float(VALUE_CONSTS[ci][0])
+    step = max(abs(v) * 1e-6, 1e-7) if abs(v) < 1e6 else 1.0
+    vals = (v, v + step, v - step)
+    for kind in CU_KINDS:
+        for tr in F.traces(3, vals, 1, minlen=3):
+            w = {'x': [e[0] for e in tr], 'y': [v, v - step, v + step]}
+            case = {'group': 'value_consts', 'kind': kind, 'const': ci, 'template': ti, 'trace': w, 'formula': None}
+            res.evaluations += 1
+            msg = vc_check(case)
+            if msg:
+                res.violation(mod, case, msg)
+                res.outcomes['constant value differs from literal'] += 1
+                break
+            res.outcomes['constant = literal'] += 1
+            res.nontrivial += 1
+        res.digest('vc', ci, ti, kind)
+    res.flags['value_const_specs'] += 1
+
+
 def _sbound(I):
     return '[%s,%s]' % tuple(x if isinstance(x, str) else F.fnum(x) for x in I)
 
@@ -213,6 +257,8 @@ def shards(tier):
     out.append({'consts': True})
     n = len(const_unit_cases())
     out += [{'const_units': list(range(i, min(i + 12, n)))} for i in range(0, n, 12)]
+    n = len(value_const_cases())
+    out += [{'value_consts': list(range(i, min(i + 6, n)))} for i in range(0, n, 6)]
     return out
 
 
@@ -318,6 +364,10 @@ def online_ct(res, mod, f, subs, text, tier):
 
 def run_shard(shard, tier, res):
     mod = sys.modules[__name__]
+    if 'value_consts' in shard:
+        for idx in shard['value_consts']:
+            run_value_consts(res, mod, idx)
+        return
     if 'const_units' in shard:
         for idx in shard['const_units']:
             run_const_units(res, mod, idx, tier)
@@ -370,6 +420,9 @@ def run_shard(shard, tier, res):
 
 
 def replay(case):
+    if case.get('group') == 'value_consts':
+        m = vc_check(case)
+        return [m] if m else []
     if case.get('group') == 'const_units':
         m = cu_check(case)[0]
         return [m] if m else []
